@@ -221,6 +221,19 @@ fn main() {
     total.merge(explore_tree(&plain, run.threads));
     total.merge(explore_tree(&values, run.threads));
     total.merge(explore_tree(&pairs, run.threads));
+    {
+        let mut t = Ctx::new();
+        total.merge(check_structured_par(&single, !run.quick(), 1, run.threads));
+        total.merge(check_structured_par(&plain, !run.quick(), 1, run.threads));
+        // flat stretches of non-dyadic values: std / var / mean / sum stay defined (non-null)
+        let flat = SeriesFam { name: "mask-flat".into(), fns: vec![R1::Std, R1::Var, R1::Mean, R1::Sum], ..shallow(&single) };
+        let flat_p = SeriesFam { name: "mask-flat-plain".into(), fns: vec![R1::Std, R1::Var, R1::Mean, R1::Sum], tys: vec![ty_p1::<f64, f64>()], ..shallow(&plain) };
+        let ws = [1usize, 2, 3, 6, 12, 20, 47, 60];
+        check_shapes(&flat, "nondyadic", &nondyadic_plateaus(), &ws, 2, &mut t);
+        check_shapes(&flat_p, "nondyadic", &nondyadic_plateaus(), &ws, 1, &mut t);
+        check_structured_pairs(&pairs, !run.quick(), &mut t);
+        total.merge(t);
+    }
     let words = all_words_upto(ma.len(), be_len);
     total.merge(par_items(&words, run.threads, |w, ctx| {
         ctx.states += 1;
